@@ -15,7 +15,7 @@ RULE = ("Trees with NCName element / attribute names (ASCII and non-ASCII name c
         "map (maps include the parent's; URIs with '&' in a query), extras keyed prefix:local with a bound prefix or "
         "xml:lang / xml:space, no duplicate expanded attribute names, no tail on the root; text drawn from all XML 1.0 "
         "characters except CR, weighted to < > & \" ' ]]> whitespace, NBSP, non-ASCII and astral characters (attribute "
-        "values without tab / newline).  For the EML exporter additionally no node has both text and children and content "
+        "values also with tab / newline / CR, which only survive as character references).  For the EML exporter additionally no node has both text and children and content "
         "is kept free of &amp; &lt; &gt; <para> </para> by construction.  Oracle: both outputs parse under lxml and "
         "expat; general exporter: names, prefixes, order, attributes, qualified attributes (by expanded name; by key when "
         "the scope is injective), in-scope bindings, content / tail up to surrounding whitespace, also through "
@@ -44,7 +44,8 @@ _xml_char = st.characters(blacklist_categories=("Cs", "Cc"), blacklist_character
 _special = st.sampled_from(["<", ">", "&", "\"", "'", "]]>", " ", "\t", "\n", "\xa0", "é", "\U0001F600", "&amp", "lt;", "a",
                             "<para>", "</para>", "&lt;", "&gt;", "&amp;", "--", "<!--", "?>", "{}", "x y", "  "])
 _text = st.lists(st.one_of(_special, _special, _xml_char.map(str)), max_size=7).map("".join)
-_attr_text = _text.map(lambda s: s.replace("\t", " ").replace("\n", " "))
+# attribute values: tab / newline / CR are representable as character references (an exporter has to write them so)
+_attr_text = st.one_of(_text, _text, st.lists(st.sampled_from(["a", " ", "\t", "\n", "\r", "\r\n", "\"", "&", "é"]), min_size=1, max_size=5).map("".join))
 
 
 @st.composite
